@@ -117,6 +117,7 @@ func c04R4(c *Ctx, r *Report) {
 		return
 	}
 	checkBoundsShape(c, r, rule, bc, eb, ec)
+	entries := boundsEntries(c, bc)
 	// def-use: Index field of every ArrayGet / ArraySet literal in mir/gen
 	n := 0
 	for _, fn := range c.AllFns(pkgMIRGen) {
@@ -157,7 +158,7 @@ func c04R4(c *Ctx, r *Report) {
 				}
 				okOrigin := false
 				if call, ok := ast.Unparen(last).(*ast.CallExpr); ok {
-					if isCallTo(info, call, bc.Obj) || isCallTo(info, call, ec.Obj) {
+					if isBoundsEntry(entries, info, call) != nil || isCallTo(info, call, ec.Obj) {
 						okOrigin = true
 					}
 				}
@@ -220,6 +221,70 @@ func c04R4(c *Ctx, r *Report) {
 		r.Check(negAdd, rule, ci.Name(), "negative constant index + Length", c.pos(ci.Decl.Pos()), "negative constant indices are no longer normalised by adding the array length")
 		r.Check(lowTest && highTest, rule, ci.Name(), "rejects idx < 0 || idx >= Length", c.pos(ci.Decl.Pos()), "a constant index outside [0, Length) is accepted for direct addressing")
 	}
+}
+
+// boundsEntry is a function through which run-time indices are range-checked: emitBoundsCheckedIndex itself, or a
+// same-package wrapper that hands its own index and length parameters (converted at most by castValue or a
+// same-package narrowing helper) to it and returns the checked index.
+type boundsEntry struct {
+	fn             *Fn
+	idxArg, lenArg int
+}
+
+func boundsEntries(c *Ctx, bc *Fn) []boundsEntry {
+	out := []boundsEntry{{bc, 0, 1}}
+	paramIndex := func(fn *Fn, o types.Object) int {
+		sig := fn.Obj.Type().(*types.Signature)
+		for i := 0; i < sig.Params().Len(); i++ {
+			if sig.Params().At(i) == o {
+				return i
+			}
+		}
+		return -1
+	}
+	for _, fn := range c.AllFns(pkgMIRGen) {
+		if fn.Obj == bc.Obj {
+			continue
+		}
+		info := fn.Info()
+		for _, call := range callsIn(fn.Decl.Body, false) {
+			if !isCallTo(info, call, bc.Obj) || len(call.Args) < 2 {
+				continue
+			}
+			ii, ok1 := ast.Unparen(call.Args[0]).(*ast.Ident)
+			li, ok2 := ast.Unparen(call.Args[1]).(*ast.Ident)
+			if !ok1 || !ok2 {
+				continue
+			}
+			ip, lp := paramIndex(fn, info.Uses[ii]), paramIndex(fn, info.Uses[li])
+			if ip < 0 || lp < 0 {
+				continue
+			}
+			// every return hands back the invalid value or the (converted) index variable
+			okRet := true
+			ast.Inspect(fn.Decl.Body, func(x ast.Node) bool {
+				if ret, ok := x.(*ast.ReturnStmt); ok && len(ret.Results) == 1 {
+					if !mentionsVar(info, ret.Results[0], info.Uses[ii]) && !strings.HasSuffix(exprStr(ret.Results[0]), "InvalidValue") {
+						okRet = false
+					}
+				}
+				return true
+			})
+			if okRet {
+				out = append(out, boundsEntry{fn, ip, lp})
+			}
+		}
+	}
+	return out
+}
+
+func isBoundsEntry(entries []boundsEntry, info *types.Info, call *ast.CallExpr) *boundsEntry {
+	for i := range entries {
+		if isCallTo(info, call, entries[i].fn.Obj) {
+			return &entries[i]
+		}
+	}
+	return nil
 }
 
 func checkBoundsShape(c *Ctx, r *Report, rule string, bc, eb, ec *Fn) {
@@ -496,16 +561,28 @@ func c08R1(c *Ctx, r *Report) {
 		return
 	}
 	n := 0
+	entries := boundsEntries(c, bc)
+	isEntryFn := func(fn *Fn) bool {
+		for _, e := range entries {
+			if e.fn.Obj == fn.Obj {
+				return true
+			}
+		}
+		return false
+	}
 	for _, fn := range c.AllFns(pkgMIRGen) {
-		if fn.Obj == bc.Obj {
-			continue
+		if isEntryFn(fn) {
+			continue // the wrapper's own call is covered by boundsEntries; its call sites are checked below
 		}
 		info := fn.Info()
 		defs := localDefs(fn)
-		for _, call := range callsIn(fn.Decl.Body, false) {
-			if !isCallTo(info, call, bc.Obj) || len(call.Args) < 2 {
+		for _, origCall := range callsIn(fn.Decl.Body, false) {
+			ent := isBoundsEntry(entries, info, origCall)
+			if ent == nil || len(origCall.Args) <= ent.lenArg || len(origCall.Args) <= ent.idxArg {
 				continue
 			}
+			// normalised view: Args[0] = index, Args[1] = length
+			call := &ast.CallExpr{Fun: origCall.Fun, Lparen: origCall.Lparen, Args: []ast.Expr{origCall.Args[ent.idxArg], origCall.Args[ent.lenArg]}, Rparen: origCall.Rparen}
 			n++
 			construct := fmt.Sprintf("bounds check #%d len=%s", n, exprStr(call.Args[1]))
 			lid, ok := ast.Unparen(call.Args[1]).(*ast.Ident)
@@ -619,11 +696,11 @@ func c08R1(c *Ctx, r *Report) {
 				// compile-time length: only legitimate for fixed arrays (arrType.Length >= 0 branch)
 				guard := false
 				walkWithStack(fn.Decl.Body, func(nd ast.Node, stack []ast.Node) bool {
-					if nd != ast.Node(call) {
+					if nd != ast.Node(origCall) {
 						return true
 					}
 					for _, a := range stack {
-						if ifs, ok := a.(*ast.IfStmt); ok && containsNode(ifs.Body, call) {
+						if ifs, ok := a.(*ast.IfStmt); ok && containsNode(ifs.Body, origCall) {
 							if b, ok := isBinOp(ifs.Cond, token.GEQ); ok && strings.HasSuffix(exprStr(b.X), ".Length") {
 								guard = true
 							}
